@@ -76,6 +76,18 @@ def _cmds(cmds):
 MODES = {"no": LoopMission.NO, "restart": LoopMission.RESTART, "reverse": LoopMission.REVERSE}
 
 
+_MISSION_DIR = []
+
+
+def _mission_file():
+    import atexit, shutil, tempfile
+    if not _MISSION_DIR:
+        d = tempfile.mkdtemp(prefix="gsverif-mission")
+        _MISSION_DIR.append(d)
+        atexit.register(shutil.rmtree, d, True)
+    return os.path.join(_MISSION_DIR[0], "mission.txt")
+
+
 def run_mission_impl(case):
     proto = Plain()
     proto.provider = Provider()
@@ -87,16 +99,13 @@ def run_mission_impl(case):
         res = "ok"
         try:
             if op[0] == "start" and case.get("via_file"):
-                # the same mission handed over as a waypoint file (one "x,y,z" line per waypoint)
-                import tempfile
-                fd, path = tempfile.mkstemp(suffix=".txt")
-                try:
-                    with os.fdopen(fd, "w") as f:
-                        for q in op[1]:
-                            f.write("%r,%r,%r\n" % (float(q[0]), float(q[1]), float(q[2])))
-                    plugin.start_mission_with_waypoint_file(path)
-                finally:
-                    os.unlink(path)
+                # the same mission handed over as a waypoint file (one "x,y,z" line per waypoint); ONE path per
+                # process, rewritten for every mission, as a planner that keeps updating "mission.txt" does
+                path = _mission_file()
+                with open(path, "w") as f:
+                    for q in op[1]:
+                        f.write("%r,%r,%r\n" % (float(q[0]), float(q[1]), float(q[2])))
+                plugin.start_mission_with_waypoint_file(path)
             elif op[0] == "start":
                 plugin.start_mission([tuple(p) for p in op[1]])
             elif op[0] == "stop":
@@ -227,6 +236,19 @@ def run_disp_impl(case):
         return handler
     # one function object per (handler, kind): the same handler id may be registered for several kinds
     handlers = [{k: make_handler(h, k) for k in KINDS} for h in range(len(case["beh"]))]
+    if case.get("bound"):
+        # handlers given as bound methods: every access to `obj.call` makes a new (equal, not identical) object
+        class _H:
+            def __init__(self, fn):
+                self.fn = fn
+
+            def call(self, instance, *args):
+                return self.fn(instance, *args)
+
+        class _Fresh(dict):
+            def __getitem__(self, k):
+                return dict.__getitem__(self, k).call
+        handlers = [_Fresh({k: _H(fn) for k, fn in d.items()}) for d in handlers]
     out = []
     for op in case["ops"]:
         del log[:]
